@@ -61,8 +61,11 @@ def slice_entries(slot):
 def run_case(idx, rng, tier, ctx):
     slot = idx % NSLOT
     gates = gates_for(idx)
-    wc = wflab.make_case(rng, idx, gates)
     entries, is_sched = slice_entries(slot)
+    if is_sched:
+        # kernels of several scheduler transformations must be subroutines; programs are smaller (3 files are parsed)
+        gates['pflags'] = {'functions': rng.random() < 0.5, 'max_stmts': rng.choice([4, 6])}
+    wc = wflab.make_case(rng, idx, gates)
     limit = 2 if tier == 'quick' else 4
     counters, feats = {}, set(wc.features)
     res = {'sig': sighash([wc.text, slot]), 'nontrivial': False, 'violations': [], 'inconclusive': None,
@@ -83,10 +86,11 @@ def run_case(idx, rng, tier, ctx):
             res['inconclusive'] = 'generator defect: ' + why
             return res
         for e in entries:
-            if e.gate and e.gate(wc) and not gates['allow_known']:
-                counters['gated_skips'] = counters.get('gated_skips', 0) + 1
-                continue
             combos = [o for o in wflab.option_combos(e.space) if not e.pre or e.pre(wc, o)]
+            if e.gate and not gates['allow_known']:
+                n0 = len(combos)
+                combos = [o for o in combos if not e.gate(wc, o)]
+                counters['gated_skips'] = counters.get('gated_skips', 0) + (n0 - len(combos))
             if not combos:
                 counters['precondition_skips'] = counters.get('precondition_skips', 0) + 1
                 continue
